@@ -396,6 +396,12 @@ def run(ctx, report):
     from .c12 import shared_table_rule
     shared_table_rule(R10, [ctx.mod('ia32_arch'), ctx.mod('parse_ad'), ctx.mod('ia32_att')])
 
+    R11 = report.rule('C19.D11', 'the Intel `SIZE PTR seg:[formula]` action evaluated on every segment x address shape, including the same two unscaled registers written in both orders '
+                      'and the displacement written first or last: size and segment override survive in every spelling (shared with C03.D3)', floor=100)
+    from .c03 import ptrformula_rule
+    from ..x86table import model as _x86model11
+    ptrformula_rule(ctx, R11, _x86model11(ctx))
+
 
 def imm_typing_rule(ctx, R):
     """check_imm_size offers the sign-extended imm8 form of a 16-bit operand only to an immediate that carries its width (imm.size == 16, which
